@@ -8,7 +8,19 @@
 #define ENV_LIBC_PRE_H
 #include <stdio.h>
 #include <stddef.h>
-#ifndef VERIF_NATIVE
+#if !defined(VERIF_NATIVE) && defined(VERIF_FMT_BODY)
+/* executable form for units that run without contract instrumentation */
+unsigned char nondet_uchar(void);
+static int verif_fmt(char *str, size_t size)
+{
+	__CPROVER_assert(size > 0 && __CPROVER_w_ok(str, size), "precondition of snprintf: destination writable");
+	for (size_t i = 0; i + 1 < size && i < 80; i++)
+		str[i] = (char)nondet_uchar();
+	str[size - 1] = 0;
+	return 0;
+}
+#define snprintf(s, n, ...) verif_fmt((s), (n))
+#elif !defined(VERIF_NATIVE)
 int verif_fmt(char *str, size_t size)
 __CPROVER_requires(size > 0 && __CPROVER_w_ok(str, size))
 __CPROVER_ensures(str[size - 1] == 0)
